@@ -218,6 +218,17 @@ func CheckDictionary(r *Report, tag string, seg segment.Segment, m *model.Seg, r
 							break
 						}
 						if e == nil {
+							// a finished enumeration stays finished
+							for k := 0; k < 3; k++ {
+								if e2, err := it.Next(); err != nil || e2 != nil {
+									t2 := "<nil>"
+									if e2 != nil {
+										t2 = short([]byte(e2.Term))
+									}
+									r.Fail("dict-iter-after-end", "%s: field %q aut %s [%q,%q): call %d after the end returned %s, %v", tag, f, na.name, start, end, k+1, t2, err)
+									break
+								}
+							}
 							break
 						}
 						if i >= len(want) || e.Term != want[i] {
